@@ -175,17 +175,19 @@ Definition case_corr_ok (c : fcase) : bool :=
 (* what the property demands of one crash state:
    - the session's record is the complete previous one or the complete new one (when there was
      no previous record: absent or the complete new one) — never empty, truncated or mixed;
-   - the engine continues the session from it: its next request behaves exactly as it does on
-     an undisturbed store holding that record;
+   - the real Persister.Load reads it (both are records the engine itself saved; the reference runs
+     below go through the same Get, so a reader that mangles complete records would otherwise agree
+     with itself) and the engine continues the session from it: its next request behaves exactly as
+     it does on an undisturbed store holding that record;
    - every other file that was in the store is byte-identical, and nothing new appeared except
      temp files (names starting with ".tmp-", which are no session's record) *)
 Definition c12_obs_ok (blobs : list bytes) (fs : list (bytes * bytes)) (p new : bytes) (o : crashobs) : bool :=
   let files := obs_files blobs o in
   match alookup p fs, alookup p files with
-  | Some old, Some b => (bytes_eqb b old && co_eq_prev o) || (bytes_eqb b new && co_eq_new o)
+  | Some old, Some b => co_load_ok o && ((bytes_eqb b old && co_eq_prev o) || (bytes_eqb b new && co_eq_new o))
   | Some _, None => false
   | None, None => true
-  | None, Some b => bytes_eqb b new && co_eq_new o
+  | None, Some b => co_load_ok o && bytes_eqb b new && co_eq_new o
   end
   && forallb (fun e => bytes_eqb (fst e) p || opt_is (alookup (fst e) files) (snd e)) fs
   && forallb (fun e => bytes_eqb (fst e) p || ahas (fst e) fs || is_prefix tmp_prefix (fst e)) files.
